@@ -2197,6 +2197,11 @@ impl Fsm {
                     exitList.push(*ec);
                 }
             }
+            // W3C: first the onexit handlers (they may still address the invoked sessions), then cancel the invocations.
+            for ec in exitList.iterator() {
+                self.executeContent(datamodel, *ec);
+            }
+
             if !invoke_doc_ids.is_empty() {
                 let mut session_ids = Vec::new();
                 for (invoke_id, session) in &get_global!(datamodel).child_sessions {
@@ -2207,10 +2212,6 @@ impl Fsm {
                 for (invoke_id, session_id) in &session_ids {
                     self.cancelInvoke(datamodel, invoke_id, *session_id);
                 }
-            }
-
-            for ec in exitList.iterator() {
-                self.executeContent(datamodel, *ec);
             }
 
             get_global!(datamodel).configuration.delete(sid)
